@@ -61,6 +61,13 @@ func (e *Engine) intrinsic(fn *ssa.Function, args []Value) (Value, bool) {
 		}
 	}
 	full := fn.String()
+	if full == "net/url.Parse" {
+		// concrete input: the real library is exact; the Go-written model of a
+		// harness package is for symbolic strings
+		if v, ok := e.urlIntrinsic(fn, full, args); ok {
+			return v, true
+		}
+	}
 	if r, ok := e.sh.replace[full]; ok {
 		return e.call(r, args), true
 	}
